@@ -455,7 +455,7 @@ eng_access = accesseng.eng_access
 WF_NOTE = "the well-formedness of every accepted provider map (wfb) is proved (C05_accepted_maps_well_formed); the correspondence run still evaluates it per accepted case as a redundant check"
 SYNTH_NOTE = "explicit loop bounds of the model: acyc_fuel and solve_fuel are proved sufficient for every accepted map (C07_linear_bound, C07_planner_linear_bound); on rejected maps the planner is not run by Wire"
 PROPS = {
-    "C01": {"level_text": "Machine-checked proof in Coq 8.16.1 over an executable model tied to the code by a per-run correspondence; the emission model and the name-freshness theorems are proved; that the emitted package compiles under Go's type checker is established by compiling every accepted program of the corpus (partial).", "theorems": ["C01_one_implementation", "C01_injector_emitted_iff", "C01_injectors_emitted_once", "C14_names_distinct", "C14_invented_names_fresh"], "engines": [eng_prog, eng_zerovalue, eng_multi, eng_layouts, eng_forms, eng_body, eng_seq],
+    "C01": {"level_text": "Machine-checked proof in Coq 8.16.1 over an executable model tied to the code by a per-run correspondence; the emission model and the name-freshness theorems are proved; that the emitted package compiles under Go's type checker is established by compiling every accepted program of the corpus (partial).", "theorems": ["C01_one_implementation", "C01_injector_emitted_iff", "C01_injectors_emitted_once", "C14_names_distinct", "C14_invented_names_fresh"], "engines": [eng_prog, eng_zerovalue, eng_multi, eng_layouts, eng_forms, eng_body, eng_seq, eng_copydecls, eng_paths],
             "assumptions": ["partial: Go's full type checker and types.TypeString are not modelled; that the package compiles is established by go build on every accepted program"]},
     "C02": {"theorems": ["C02_wiring_accepted", "C02_each_type_built_once", "C02_provider_called_at_most_once", "C02_called_only_if_needed", "C02_machine_refines_visit", "C06_accepted_is_complete_accepted", "C05_accepted_maps_well_formed"], "engines": [eng_synth, eng_prog, eng_multi, eng_layouts], "assumptions": [SYNTH_NOTE, WF_NOTE, "emission of the planned calls and the run-time behaviour are tied by the emitted-lines correspondence and the runtime traces"]},
     "C03": {"theorems": ["C03_failure", "C03_nothing_called_after_failure", "C03_unwinds_exactly_the_succeeded", "C03_unwinds_once", "C03_own_cleanup_never_runs"], "engines": [eng_prog],
